@@ -434,10 +434,8 @@ func ruleR30_2(c *Check) {
 	ul := w.Func("badger.Sequence.updateLease")
 	okTest := false
 	for _, s := range f.Sites(selCall(ul)) {
-		for _, g := range w.Guards(f, s) {
-			if be, ok := g.Cond.(*ast.BinaryExpr); ok && g.Val && be.Op == token.GEQ && w.fieldOf(be.X) == next && w.fieldOf(be.Y) == leased {
-				okTest = true
-			}
+		if op, _ := w.guardRel(w.Guards(f, s), w.isField(next), w.isField(leased), false); op == token.GEQ {
+			okTest = true
 		}
 		r.Check(w.errIsFatal(f, s.(*ast.CallExpr)), f, "a failed lease update hands out nothing", s, "the error of updateLease can be ignored")
 	}
@@ -447,7 +445,7 @@ func ruleR30_2(c *Check) {
 		var tests []ast.Node
 		f.walk(func(n ast.Node) bool {
 			if is, ok := n.(*ast.IfStmt); ok {
-				if be, ok := unparen(is.Cond).(*ast.BinaryExpr); ok && w.fieldOf(be.X) == next && w.fieldOf(be.Y) == leased {
+				if _, ok := w.cmpRoles(is.Cond, true, w.isField(next), w.isField(leased)); ok {
 					tests = append(tests, is.Cond)
 				}
 			}
